@@ -1,7 +1,7 @@
 /-!
 # Model of "rules file → validation → sampler construction → first decisions"  (property C28)
 
-Go code mirrored (as it is now; `fixed = true` selects the *proposed* repairs, see the end):
+Go code mirrored (as it is now; each flag of `Fixes` selects one *proposed* repair, see `Fixes`):
 
 * `config/validate.go`  `Metadata.ValidateRules` / `Metadata.Validate` interpreting
   `config/metadata/rulesMeta.yaml` — the metadata table is a **parameter** (`Meta`), supplied from
@@ -97,6 +97,22 @@ structure RawCfg where
   version : Val := .int 2
   entries : List RawEntry := []
   deriving Repr
+
+/-- One flag per proposed repair (all `false`: the code as it is).  The coordinator flips a flag in
+the oracle when the corresponding `fix:` commit lands. -/
+structure Fixes where
+  keyFields : Bool := false    -- `GetKeyFields` skips empty names
+  det : Bool := false          -- `DeterministicSampler.Start` divides in 64 bits, only for rates > 1
+  intn : Bool := false         -- the `GetSampleRate` methods clamp the `int` answer before converting to `uint`
+  emaInterval : Bool := false  -- `createDynForEMAThroughputSampler`: an interval under 1 ms selects the default
+  ticker : Bool := false       -- the other four `createDynFor…`: a negative interval selects the default
+  nullElems : Bool := false    -- `Validate`: every member of an `objectarray` must be a mapping
+  noSampler : Bool := false    -- `newFileConfig`: every `Samplers` entry / rule `Sampler:` configures a sampler type
+  deriving Repr, DecidableEq
+
+def Fixes.none : Fixes := {}
+def Fixes.all : Fixes :=
+  { keyFields := true, det := true, intn := true, emaInterval := true, ticker := true, nullElems := true, noSampler := true }
 
 /-! ## `validateDatatype` and the per-field validations -/
 
@@ -231,9 +247,25 @@ def validateEntry (md : Meta) : RawEntry → Bool
   | .leaf g v => validateGroup md g v
   | .rules v => validateRules md v
 
+def isObj {α : Type} : Shape α → Bool
+  | .obj _ => true
+  | _ => false
+
+def ruleElemsObj : Shape RawRule → Bool
+  | .obj r => (r.conds.getD []).all isObj
+  | _ => false
+
+def entryElemsObj : RawEntry → Bool
+  | .rules (.obj rb) => (rb.rules.getD []).all ruleElemsObj
+  | _ => true
+
+/-- proposed repair `nullElems`: in `Validate`'s `objectarray` case a member that is not a mapping
+(`- ` with nothing after it, a scalar) is an error -/
+def elemsObj (c : RawCfg) : Bool := c.entries.all entryElemsObj
+
 /-- `ValidateRules` has no error-level result -/
-def validate (md : Meta) (c : RawCfg) : Bool :=
-  (c.version == .int 2) && c.entries.all (validateEntry md)
+def validate (md : Meta) (fx : Fixes) (c : RawCfg) : Bool :=
+  (c.version == .int 2) && c.entries.all (validateEntry md) && (!fx.nullElems || elemsObj c)
 
 /-! ## Decoding into the configuration structs -/
 
@@ -405,27 +437,31 @@ inductive Load where
   | ok (c : Choice)
   deriving Repr, DecidableEq
 
-/-! ### the proposed structural check on the decoded rules (`fixed = true` only)
+/-! ### proposed repair `noSampler`: a structural check on the decoded rules
 
-Proposed repair (a `(*V2SamplerConfig)` check called by `newFileConfig` after decoding, whose
-error is returned like a decoding error): every
-`Samplers` entry configures a sampler, no rule and no condition is nil, no `Sampler:` mapping of a
-rule is empty. -/
+A `(*V2SamplerConfig)` check called by `newFileConfig` after decoding (its error is returned like a
+decoding error): every `Samplers` entry configures a sampler type, no `Sampler:` mapping of a rule
+is empty. -/
 
-def ruleWF : Option Rule → Bool
-  | none => false
-  | some r => r.conds.all Option.isSome && (r.sampler != some .empty)
+def missingSampler : Choice → Bool
+  | .none => true
+  | .leaf _ => false
+  | .rules rs => rs.any fun
+      | some r => r.sampler == some .empty
+      | none => false
 
-def wellFormed : Choice → Bool
-  | .none => false
-  | .leaf _ => true
-  | .rules rs => rs.all ruleWF
+/-- a nil rule or a nil condition somewhere -/
+def hasNil : Choice → Bool
+  | .rules rs => rs.any fun
+      | none => true
+      | some r => r.conds.any Option.isNone
+  | _ => false
 
 /-- `config.NewConfig` on the rules file -/
-def load (md : Meta) (fixed : Bool) (c : RawCfg) : Load :=
-  if validate md c then
+def load (md : Meta) (fx : Fixes) (c : RawCfg) : Load :=
+  if validate md fx c then
     match decode c with
-    | .ok ch => if fixed && !wellFormed ch then .loaderr else .ok ch
+    | .ok ch => if fx.noSampler && missingSampler ch then .loaderr else .ok ch
     | .error _ => .loaderr
   else .reject
 
@@ -442,34 +478,35 @@ inductive Crash where
   deriving Repr, DecidableEq
 
 /-- `config.GetKeyFields`: evaluates `field[0]` for every name.  Proposed repair: skip empty names. -/
-def keyFields (fixed : Bool) (fs : List String) : Except Crash Unit :=
-  if !fixed && fs.contains "" then .error .index else .ok ()
+def keyFields (fx : Fixes) (fs : List String) : Except Crash Unit :=
+  if !fx.keyFields && fs.contains "" then .error .index else .ok ()
 
 /-- `DeterministicSampler.Start`: `math.MaxUint32 / uint32(rate)`.
 Proposed repair: `if rate > 1 { upperBound = uint32(MaxUint32 / uint64(rate)) }`. -/
-def detStart (fixed : Bool) (rate : Int) : Except Crash Unit :=
-  if !fixed && rate % 4294967296 = 0 then .error .divzero else .ok ()
+def detStart (fx : Fixes) (rate : Int) : Except Crash Unit :=
+  if !fx.det && rate % 4294967296 = 0 then .error .divzero else .ok ()
 
 def second : Int := 1000000000
 def millisecond : Int := 1000000
 
 /-- `createDynFor…` + the third-party `Start`: the interval that reaches `time.NewTicker` in the
 sampler's goroutine.  `.ok true`: `EMAThroughput.Start` returned its "unreasonably short" error
-before allocating its maps and the error was dropped.  Proposed repair: non-positive (EMAThroughput:
-sub-millisecond) intervals select the default. -/
-def dynCreate (fixed : Bool) (c : DynCfg) : Except Crash Bool :=
+before allocating its maps and the error was dropped.  Proposed repairs: `ticker` — a negative
+interval selects the default (the four samplers with a ticker on any interval); `emaInterval` — an
+interval under 1 ms selects the default (EMAThroughput). -/
+def dynCreate (fx : Fixes) (c : DynCfg) : Except Crash Bool :=
   match c.kind with
   | .dynamic | .total =>
-    let iv := if c.interval = 0 ∨ (fixed ∧ c.interval < 0) then 30 * second else c.interval
+    let iv := if c.interval = 0 ∨ (fx.ticker = true ∧ c.interval < 0) then 30 * second else c.interval
     if iv ≤ 0 then .error .ticker else .ok false
   | .emaDynamic =>
-    let iv := if c.interval = 0 ∨ (fixed ∧ c.interval < 0) then 15 * second else c.interval
+    let iv := if c.interval = 0 ∨ (fx.ticker = true ∧ c.interval < 0) then 15 * second else c.interval
     if iv ≤ 0 then .error .ticker else .ok false
   | .windowed =>
-    let iv := if c.interval = 0 ∨ (fixed ∧ c.interval < 0) then second else c.interval
+    let iv := if c.interval = 0 ∨ (fx.ticker = true ∧ c.interval < 0) then second else c.interval
     if iv ≤ 0 then .error .ticker else .ok false
   | .emaThroughput =>
-    let iv := if c.interval = 0 ∨ (fixed ∧ c.interval < millisecond) then 15 * second else c.interval
+    let iv := if c.interval = 0 ∨ (fx.emaInterval = true ∧ c.interval < millisecond) then 15 * second else c.interval
     if iv < millisecond then .ok true else .ok false
 
 /-- a started leaf sampler -/
@@ -479,16 +516,16 @@ inductive LeafS where
   deriving Repr, DecidableEq
 
 /-- `SamplerFactory.createSampler` for one configuration: shared dynsampler first, then `Start` -/
-def leafStart (fixed : Bool) : Leaf → Except Crash LeafS
+def leafStart (fx : Fixes) : Leaf → Except Crash LeafS
   | .det rate =>
-    match detStart fixed rate with
+    match detStart fx rate with
     | .error e => .error e
     | .ok _ => .ok (.det rate)
   | .dyn c =>
-    match dynCreate fixed c with
+    match dynCreate fx c with
     | .error e => .error e
     | .ok mapsNil =>
-      match keyFields fixed c.fieldList with
+      match keyFields fx c.fieldList with
       | .error e => .error e
       | .ok _ => .ok (.dyn c mapsNil)
 
@@ -507,14 +544,14 @@ def initialAnswer (c : DynCfg) : Int :=
 `later`: the third-party sampler's answer once it has data (`none`: still the initial answer).
 Current code: `rate = uint(answer); if rate < 1 { rate = 1 }; rand.Intn(int(rate))`.
 Proposed repair: clamp the `int` answer before converting. -/
-def leafEval (fixed : Bool) (s : LeafS) (later : Option Int) : Except Crash Int :=
+def leafEval (fx : Fixes) (s : LeafS) (later : Option Int) : Except Crash Int :=
   match s with
   | .det rate => .ok (if rate ≤ 1 then 1 else rate)
   | .dyn c mapsNil =>
     if mapsNil then .error .nilmap
     else
       let a := later.getD (initialAnswer c)
-      if fixed then .ok (toU64 (if a < 1 then 1 else a))
+      if fx.intn then .ok (toU64 (if a < 1 then 1 else a))
       else
         let r := toU64 a
         let r := if r < 1 then 1 else r
@@ -546,8 +583,8 @@ def ruleFields (r : Rule) : List String :=
 def allFields (rs : List (Option Rule)) : List String := (rs.filterMap id).flatMap ruleFields
 
 /-- `config.GetKeyFields(cfg.GetSamplingFields())` for a rules-based sampler -/
-def rulesKeyFields (fixed : Bool) (rs : List (Option Rule)) : Except Crash Unit :=
-  if hasNilCond rs then .error .nilptr else keyFields fixed (allFields rs)
+def rulesKeyFields (fx : Fixes) (rs : List (Option Rule)) : Except Crash Unit :=
+  if hasNilCond rs then .error .nilptr else keyFields fx (allFields rs)
 
 structure RuleS where
   sampleRate : Int
@@ -556,14 +593,14 @@ structure RuleS where
   deriving Repr, DecidableEq
 
 /-- one iteration of the loop in `RulesBasedSampler.Start` -/
-def startRule (fixed : Bool) : Option Rule → Except Crash RuleS
+def startRule (fx : Fixes) : Option Rule → Except Crash RuleS
   | none => .error .nilptr                                  -- `rule.Conditions` of a nil rule
   | some r =>
     match r.sampler with
     | none => .ok { sampleRate := r.sampleRate, hasSampler := false, down := none }
     | some .empty => .error .exit                           -- "can not continue with an unknown sampler type. Exiting."
     | some (.leaf l) =>
-      match leafStart fixed l with
+      match leafStart fx l with
       | .error e => .error e
       | .ok s => .ok { sampleRate := r.sampleRate, hasSampler := true, down := some s }
 
@@ -574,42 +611,42 @@ inductive Sampler where
 
 /-- `SamplerFactory.GetSamplerImplementationForKey` (what a collector worker does the first time it
 decides a trace of an environment) -/
-def start (fixed : Bool) : Choice → Except Crash Sampler
+def start (fx : Fixes) : Choice → Except Crash Sampler
   | .none => .error .exit                                   -- "unknown sampler type <nil>. Exiting."
   | .leaf l =>
-    match leafStart fixed l with
+    match leafStart fx l with
     | .error e => .error e
     | .ok s => .ok (.leaf s)
   | .rules rs =>
-    match rulesKeyFields fixed rs with
+    match rulesKeyFields fx rs with
     | .error e => .error e
     | .ok _ =>
-      match mapE (startRule fixed) rs with
+      match mapE (startRule fx) rs with
       | .error e => .error e
       | .ok ss => .ok (.rules ss)
 
 /-- `types.NewCoreFieldsUnmarshaler`, run by the router for every incoming request -/
-def reqKeyFields (fixed : Bool) : Choice → Except Crash Unit
+def reqKeyFields (fx : Fixes) : Choice → Except Crash Unit
   | .none => .ok ()
-  | .leaf l => keyFields fixed (leafFields l)
-  | .rules rs => rulesKeyFields fixed rs
+  | .leaf l => keyFields fx (leafFields l)
+  | .rules rs => rulesKeyFields fx rs
 
 /-- `RulesBasedSampler.GetSampleRate`: first matching rule (`m i`: rule `i` matches the trace) -/
-def rulesEval (fixed : Bool) (m : Nat → Bool) (later : Option Int) : Nat → List RuleS → Except Crash Int
+def rulesEval (fx : Fixes) (m : Nat → Bool) (later : Option Int) : Nat → List RuleS → Except Crash Int
   | _, [] => .ok 1                                          -- "no rule matched"
   | i, r :: rest =>
     if m i then
       if r.hasSampler then
         match r.down with
         | none => .ok 1                                     -- "bad_rule"
-        | some s => leafEval fixed s later
+        | some s => leafEval fx s later
       else .ok (toU64 r.sampleRate)                         -- `rand.Intn` is guarded by `SampleRate > 0`
-    else rulesEval fixed m later (i + 1) rest
+    else rulesEval fx m later (i + 1) rest
 
-def eval (fixed : Bool) (s : Sampler) (m : Nat → Bool) (later : Option Int) : Except Crash Int :=
+def eval (fx : Fixes) (s : Sampler) (m : Nat → Bool) (later : Option Int) : Except Crash Int :=
   match s with
-  | .leaf l => leafEval fixed l later
-  | .rules rs => rulesEval fixed m later 0 rs
+  | .leaf l => leafEval fx l later
+  | .rules rs => rulesEval fx m later 0 rs
 
 def isOk {ε α : Type} : Except ε α → Bool
   | .ok _ => true
@@ -618,10 +655,10 @@ def isOk {ε α : Type} : Except ε α → Bool
 /-- The conclusion of C28 on the modelled paths: request key-field derivation, sampler construction
 and every decision succeed, whatever rule matches and whatever the third-party sampler later
 answers (`laterOk` restricts those answers). -/
-def NoCrash (fixed : Bool) (laterOk : Int → Prop) (c : Choice) : Prop :=
-  reqKeyFields fixed c = .ok () ∧
-  ∃ s, start fixed c = .ok s ∧
+def NoCrash (fx : Fixes) (laterOk : Int → Prop) (c : Choice) : Prop :=
+  reqKeyFields fx c = .ok () ∧
+  ∃ s, start fx c = .ok s ∧
     ∀ (m : Nat → Bool) (later : Option Int), (∀ a, later = some a → laterOk a) →
-      isOk (eval fixed s m later) = true
+      isOk (eval fx s m later) = true
 
 end Refinery.Model.Startup
